@@ -103,4 +103,21 @@ example :
     s.outs = ["ev invokeRuntimeDone:success:-"] ∧ (step 0 s (.agNext "a" "")).outs = ["caller0 done err=ok body=bytes:r"] := by
   decide
 
+/-- the state in which the runtime has died between two invocations while extension `a` waits in `next` -/
+def diedIdle : State :=
+  [Op.invoke 0 5 "h", .register "a" [.invoke, .shutdown] "", .agNext "a" "", .rtNext, .rtResponse (some 1) 5 "x" false,
+   .rtNext, .agNext "a" "", .exit "runtime" "code2" false].foldl (step 0) { extFiles := ["a"] }
+
+-- A dispatch that fails at once (the next invocation after the runtime died idle) releases the extension's
+-- parked `next` for the event and again for the shutdown; a handler's wake-up and its reading of the event are
+-- separate moves, so — the Go scheduler's choice, here the digit `v` — the extension reads SHUTDOWN once
+-- (v = 0: not woken in between), reads INVOKE and finds its thread released again (v = 1), or reads SHUTDOWN
+-- and finds its thread released again (v = 7: woken in between, read afterwards). All three were observed on
+-- the real stack; the model had only the first two until the moves were split.
+example :
+    let out := fun v => let s := step v diedIdle (.invoke 1 5 "g"); (s.outs.filter (· != "sup term:runtime-1"), s.agents.map (·.flag))
+    out 0 = (["ev invokeStart:id#2", "a.next=200,SHUTDOWN,ReleaseFail"], [false]) ∧
+    out 1 = (["ev invokeStart:id#2", "a.next=200,INVOKE,id#2,arn=ok,trace1"], [true]) ∧
+    out 7 = (["ev invokeStart:id#2", "a.next=200,SHUTDOWN,ReleaseFail"], [true]) := by decide +kernel
+
 end Rie.Props.C04
